@@ -279,6 +279,22 @@ class TypeParser:
             else:
                 break
         t = self.peek()
+        if t == '(' and self._is_member_pointer_ahead():
+            # pointer to member function "(C::*)(params) quals" (possibly with & / &&): an opaque two-word value in C
+            depth = 0
+            while True:
+                x = self.eat()
+                if x == '(':
+                    depth += 1
+                elif x == ')':
+                    depth -= 1
+                    if depth == 0:
+                        break
+            is_ref = False
+            if self.peek() == '(':
+                self.parse_params()
+                self.skip_fn_quals()
+            return ('b', 'struct vf_memfnptr')
         if t == '(':
             # either "(*)(params)" / "(&)(params)" / "(C::*)(params)" or a function type "(params)"
             if self.peek(1) in ('*', '&') and True:
@@ -311,6 +327,33 @@ class TypeParser:
         if t == '[':
             return self.parse_arrays(ty)
         return ty
+
+    def _is_member_pointer_ahead(self):
+        d = 0
+        j = self.i
+        while j < len(self.t):
+            x = self.t[j]
+            if x == '(':
+                d += 1
+            elif x == ')':
+                d -= 1
+                if d == 0:
+                    return False
+            elif x == '*' and d == 1 and j >= 1 and self.t[j - 1] == '::':
+                return True
+            elif x == '<':
+                # skip template argument lists
+                dd = 0
+                while j < len(self.t):
+                    if self.t[j] == '<':
+                        dd += 1
+                    elif self.t[j] == '>':
+                        dd -= 1
+                        if dd == 0:
+                            break
+                    j += 1
+            j += 1
+        return False
 
     def skip_fn_quals(self):
         while self.peek() in ('const', 'volatile', 'noexcept', '&', '&&', 'throw'):
